@@ -22,7 +22,11 @@ EXPLANATION = (
     "agree for equal spin blocks; the overlap ratio dividing the hand-coded cisd / ucisd force bias equals "
     "the ratio of their energy and overlap routines. SYM-1: uhf and ucisd force biases are invariant "
     "under a consistent exchange of spin labels; NOCI's up and down contributions are mirror images. "
-    "NI-1: batched evaluation is a pure split/merge of the walker axis."
+    "NI-1: batched evaluation is a pure split/merge of the walker axis. "
+    "BIND-2: the primal of the differentiated field coefficients is complex (a real primal makes "
+    "reverse mode return Re dO/dx). SIB-2: the force bias equals the Coulomb trace(s) that enter the "
+    "two-body energy of the same class (times 2 for the restricted RHF routines). SYM-1 mirror rule for "
+    "_overlap_with_rot_sd. "
 )
 NOT_DECIDED = "numerical equality of the three evaluation modes; signs and factors inside the hand-coded contractions where no second copy exists (ghf)."
 TECHNIQUE = "static analysis: cotangent-index binding check, linear value numbering of sibling implementations, spin-exchange symmetry"
